@@ -86,23 +86,16 @@ func VfC29_GateOrder() {
 	vfRacy(w)
 	w.Write([]byte("b1"))
 	w.Write([]byte("b2"))
-	sawOpen := false
-	vfGo(func() {
-		w.lock.RLock()
-		sawOpen = w.flush
-		w.lock.RUnlock()
-		w.Write([]byte("x"))
-	})
+	vfGo(func() { w.Write([]byte("x")) })
 	w.Flush()
 	vfWaitThreads()
 	vfReach("C29.order.done")
 	i1, i2, ix := vfIndex(sink.lines, "b1"), vfIndex(sink.lines, "b2"), vfIndex(sink.lines, "x")
 	vfAssert("C29.order.all", len(sink.lines) == 3 && i1 >= 0 && i2 >= 0 && ix >= 0)
 	vfAssert("C29.order.buffered", i1 < i2)
-	if sawOpen {
-		// x was written after the gate had opened: it is a later line
-		vfAssert("C29.order.later.after.buffered", ix > i2)
-	}
+	// both buffered writes had returned before x's writer was even started: x is a later line, whether it was
+	// buffered behind them or written through after the gate opened
+	vfAssert("C29.order.later.after.buffered", ix > i2)
 }
 
 // VfC29_Ring: from an arbitrary valid ring state (size 1..3, any index,
